@@ -460,6 +460,16 @@ func (m *Monitor) feed(ev *Event) {
 		m.onRet(ev)
 	case KFatal:
 		m.fatal = append(m.fatal, ev.Str)
+		node := ev.Node
+		if node == "" {
+			node = "?"
+		}
+		sig := "fatal"
+		if n := m.Nodes[node]; n != nil && n.mixedInstall && strings.Contains(ev.Str, "failed to restore state machine with snapshot") {
+			// the state machine refused the file the recorded mixed-snapshot defect produced on this node
+			sig = "fatal/after-mixed-install"
+		}
+		m.violate(ev, []string{"C14", "C18"}, sig, node, "node %s aborted the process: %s", node, ev.Str)
 	case KPhase:
 		m.Phase = ev.Str
 	case KPuppet:
@@ -1561,7 +1571,15 @@ func (n *NodeSh) LastTerm() uint64                 { return n.lastTerm() }
 func (n *NodeSh) BaseIndex() uint64                { return n.base.Index }
 func (n *NodeSh) HaveLog() bool                    { return n.haveLog }
 func (n *NodeSh) PersistedState() (uint64, string) { return n.pTerm, n.pVote }
-func (n *NodeSh) SnapLabel() (uint64, uint64)      { return n.snapLabelIdx, n.snapLabelTerm }
+
+// MixedInstall reports whether the recorded mixed-snapshot defect (known finding) happened on the node.
+func (m *Monitor) MixedInstall(node string) bool {
+	m.mu.Lock()
+	defer m.mu.Unlock()
+	n := m.Nodes[node]
+	return n != nil && n.mixedInstall
+}
+func (n *NodeSh) SnapLabel() (uint64, uint64) { return n.snapLabelIdx, n.snapLabelTerm }
 
 // IncTainted reports whether the state machine of a node incarnation was restored from a
 // snapshot already flagged by the C10 oracle (its state comparisons are excluded elsewhere).
